@@ -1,3 +1,72 @@
-import MgpuModel.C20
+import MgpuProofs.C20_Cons3
+/-! # C20 — property theorems (NVIDIA trace-driven simulation conserves work and terminates;
+    trace parsing round-trips)
+
+Model: `MgpuModel/C20_Sys.lean` (driver / GPUs / SMs / sub-cores, ports, connections, Akita's
+sleep/wake rule), `MgpuModel/C20_Parse.lean` (`ReadTrace`/`extractInst`, `render`),
+`MgpuModel/C20_Spec.lean` (`finished`, totals).  `legacy = true` is the code before the `fix:` commits.
+An event list `evs : List Ev` is an arbitrary interleaving of component and connection ticks — also
+ticks of components that are asleep (Akita may schedule those) — so "for all `evs`" covers every
+schedule of every engine. -/
 namespace C20
+
+/-- **Conservation of instructions, every run.**  For every platform shape, every trace and every
+    interleaving of ticks (before and after the fixes): the instructions received by sub-cores
+    (`Subcore.instsCount`, what `GetTotalInstsCount` reports) plus the instructions still waiting in
+    undispatched lists and port buffers of the three layers equal the instructions of the trace.
+    Nothing is duplicated and nothing is dropped on the way down, whatever the schedule. -/
+theorem conservation (legacy : Bool) (G S C : Nat) (trace : List Kernel) (evs : List Ev) :
+    receivedInsts (run (init legacy G S C trace) evs) + pendingInsts (run (init legacy G S C trace) evs)
+      = instsOfTrace trace := by
+  have h := Q_run (init legacy G S C trace) evs
+  rw [Q_init] at h
+  exact h
+
+/-- Consequence: once nothing is pending above the sub-cores, they have received exactly the
+    instructions of the trace (each warp's instructions exactly once). -/
+theorem conservation_when_drained (legacy : Bool) (G S C : Nat) (trace : List Kernel) (evs : List Ev)
+    (h : pendingInsts (run (init legacy G S C trace) evs) = 0) :
+    receivedInsts (run (init legacy G S C trace) evs) = instsOfTrace trace := by
+  have := conservation legacy G S C trace evs
+  omega
+
+/-- a ragged, degenerate trace on 2 GPUs × 2 SMs × 3 sub-cores, run to quiescence by fair rounds:
+    the hypothesis of `conservation_when_drained` is met and all 33 instructions arrived -/
+example :
+    let s := (rounds 60 (init false 2 2 3 [[[0, 5], []], [], [[1, 2, 3, 4, 5, 6, 7]]], [])).1
+    pendingInsts s = 0 ∧ receivedInsts s = 33 ∧ finished s = true ∧ allAsleep s = true := by
+  decide +kernel
+
+/-- The full termination statement: whenever the engine's queue is empty (no component or connection
+    has a pending tick) the run is finished — all kernels reported to the driver, every device, SM and
+    sub-core idle and back in its parent's free list, every buffer empty. -/
+def TerminatesAllIdle (legacy : Bool) : Prop :=
+  ∀ (G S C : Nat) (trace : List Kernel) (evs : List Ev), 1 ≤ G → 1 ≤ S → 1 ≤ C →
+    allAsleep (run (init legacy G S C trace) evs) = true → finished (run (init legacy G S C trace) evs) = true
+
+/-- the 14 events the engine handles on the pre-fix code for one block with warps {0, 5} on one SM
+    with two sub-cores (same order as the real serial engine; reproduced on the real code at t = 7) -/
+def legacyWitness : List Ev := (rounds 20 (init true 1 1 2 [[[0, 5]]], [])).2
+
+/-- **The code before the fixes violates termination**: after `legacyWitness` nothing is scheduled,
+    the kernel is unfinished and the 5-instruction warp was never dispatched (the SM went to sleep
+    because `dispatchThreadblocksToSubcores` returned `false`, and the empty warp never reports). -/
+theorem terminates_all_idle_legacy_refuted : ¬ TerminatesAllIdle true := by
+  intro h
+  have := h 1 1 2 [[[0, 5]]] legacyWitness (by decide) (by decide) (by decide) (by decide +kernel)
+  revert this
+  decide +kernel
+
+example :
+    let s := run (init true 1 1 2 [[[0, 5]]]) legacyWitness
+    allAsleep s = true ∧ s.l0.unfin = 1 ∧ (get s.l2 0).undisp = [5] ∧ receivedInsts s = 0 := by
+  decide +kernel
+
+/-- `Tick` returning `false` must mean "nothing changed"; the pre-fix GPU dispatch breaks this: the
+    tick sends a thread block (outgoing buffer grows) and still reports no progress, so the GPU sleeps. -/
+theorem progress_flag_honest_legacy_refuted :
+    ∃ (s : Sys) (g : Nat), s.legacy = true ∧ awakeOf (tickGpu s g) (.gpu g) = false ∧
+      (get (tickGpu s g).l1 g).pOut ≠ (get s.l1 g).pOut :=
+  ⟨run (init true 1 1 1 [[[1]]]) [.drv, .c0, .gpu 0], 0, by decide +kernel⟩
+
 end C20
